@@ -6,7 +6,7 @@ set -u
 VERIF=$(cd "$(dirname "$0")/.." && pwd)
 D=$(realpath "$1"); P=$(python3 -c "import json;m=json.load(open('$D/meta.json'));print(m.get('breaks_property') or m['property'])")
 case "$D" in "$VERIF"/seeded/*) ;; *)  # a fresh seed from a seeding agent: adopt it as seeded/<P>-<slug>
-  N="$VERIF/seeded/$P-$(basename "$D")"; mkdir -p "$N"; cp "$D/patch.diff" "$D/demo.py" "$D/meta.json" "$N/"; D="$N";
+  N="$VERIF/seeded/$P-$(basename "$D")"; if [ -e "$N" ]; then N="$N-${ROUND:-again}"; fi; mkdir -p "$N"; cp "$D/patch.diff" "$D/demo.py" "$D/meta.json" "$N/"; D="$N";
   python3 -c "import json;p='$D/meta.json';m=json.load(open(p));m['breaks_property']=m.get('breaks_property') or m['property'];json.dump(m,open(p,'w'),indent=1)";;
 esac
 if python3 -c "import json,sys;sys.exit(0 if json.load(open('$D/meta.json')).get('obsolete') else 1)"; then echo "$(basename $D): obsolete (see meta.json) - skipped"; exit 0; fi
